@@ -10,8 +10,17 @@ X(q, u) == [q |-> q, u |-> u]
 Amounts == {One, Q(5, 2), QInt(1000)}
 ArithPairs == {<<"km", "m">>, <<"m", "cm">>, <<"cm", "in">>, <<"ft", "in">>, <<"mile", "yard">>, <<"kg", "g">>, <<"g", "mg">>, <<"lb", "oz">>,
                <<"st", "lb">>, <<"kb", "byte">>, <<"byte", "bit">>, <<"gb", "mb">>, <<"m", "m">>, <<"in", "cm">>, <<"tonne", "kg">>}
+\* units close enough in size for an exact sum to stay inside TLC's integers
+SizeClasses == {{"mm", "cm", "dm", "m", "in", "ft", "yard"}, {"m", "dam", "hm", "km", "yard", "furlong", "mile"},
+                {"mg", "cg", "dg", "g", "oz"}, {"g", "dag", "hg", "kg", "oz", "lb", "st"}, {"kg", "tonne", "lb", "st"},
+                {"bit", "byte", "kb", "mb", "gb", "tb", "pb", "eb", "zb", "yb"}}
+SameKindPairs == {p \in UnitNames \X UnitNames : UnitOf(p[1]).kind = UnitOf(p[2]).kind}
 Lines == {[form |-> "unit_lit", x |-> X(q, u)] : q \in Amounts \cup {Q(-7, 4), Zero}, u \in UnitNames}
     \cup {[form |-> "unit_conv", x |-> X(q, a), target |-> b] : q \in Amounts, a \in UnitNames, b \in UnitNames}
+    \cup {[form |-> "unit_conv", x |-> X(Zero, p[1]), target |-> p[2]] : p \in SameKindPairs}
+    \* every ordered pair of units of one kind in sums and ratios (units at the same position of different families included)
+    \cup {[form |-> "unit_arith", l |-> X(QInt(3), p[1]), op |-> o, r |-> X(Q(5, 2), p[2])] :
+              p \in {q \in SameKindPairs : UnitOf(q[2]).e2 - UnitOf(q[1]).e2 \in -20..20 /\ \E c \in SizeClasses : q[1] \in c /\ q[2] \in c}, o \in {"+", "/"}}
     \cup {[form |-> "unit_arith", l |-> X(QInt(3), p[1]), op |-> o, r |-> X(Q(5, 2), p[2])] : p \in ArithPairs, o \in {"+", "-", "/"}}
     \cup {[form |-> "unit_arith", l |-> X(Q(-5, 2), u), op |-> o, r |-> X(n, "")] : u \in {"km", "in", "kg", "oz", "mb"}, o \in {"*", "/"}, n \in {QInt(4), Q(1, 2), Zero}}
 VARIABLE line
